@@ -15,7 +15,8 @@ MaxU16 == 65535
 
 (* Pure latch operators: <<record', return value, broadcast>>              *)
 
-GNew(c) == [count |-> c, arrived |-> 0, canceled |-> FALSE, err |-> "nil"]
+\* init: the count the latch was constructed with (restored by Clear; tree after the fix of F-C08-3)
+GNew(c) == [count |-> c, init |-> c, arrived |-> 0, canceled |-> FALSE, err |-> "nil"]
 
 GCond(r) == r.arrived = r.count \/ r.canceled
 
@@ -41,6 +42,6 @@ GWalk(r) ==
 
 GCancel(r, e) == <<[r EXCEPT !.canceled = TRUE, !.err = e], "void", TRUE>>
 
-GClear(r) == <<[r EXCEPT !.canceled = FALSE, !.arrived = 0, !.err = "nil"], "void", FALSE>>
+GClear(r) == <<[r EXCEPT !.canceled = FALSE, !.arrived = 0, !.err = "nil", !.count = r.init], "void", r.init = 0>>
 
 =============================================================================
